@@ -23,3 +23,12 @@ pub(crate) fn emit(event: u8, addr: usize, mode: u8) {
     f(event, addr, mode);
   }
 }
+
+/// Verification seam H8: an explicit scheduling point (reported as event 1, "about to try") in code
+/// that is not built on the hybrid locks — the topic channel's publish / subscribe / unsubscribe /
+/// close paths call it between their steps on shared structures, never while a lock or a
+/// left-right read guard is held.
+#[inline]
+pub(crate) fn point() {
+  emit(1, 0, 0);
+}
